@@ -70,7 +70,7 @@ def pair_obs(eng, A, B, only=None, exclude=()):
     return obs
 
 
-def cat_cat(eng, nr=2, nc=3, rows_date=False, ins=True, values=True, medians=False, strict=False, multi_diff=False, valueless=False, hide_valued=False):
+def cat_cat(eng, nr=2, nc=3, rows_date=False, ins=True, values=True, medians=False, strict=False, multi_diff=False, valueless=False, hide_valued=False, sort_by_insertion=False):
     if medians:
         # the medians fork on the value order and on every cumulative threshold: own small scenario, concrete values
         rv, cv = [3, 1, 2][:nr], [2, 5, 1][:nc]
@@ -99,6 +99,11 @@ def cat_cat(eng, nr=2, nc=3, rows_date=False, ins=True, values=True, medians=Fal
         hide = {str(i): {"hide": True} for k, i in enumerate(ids) if cv[k] is not None}
         ta = {"columns_dimension": {"elements": dict(hide)}}
         tb = {"rows_dimension": {"elements": dict(hide)}}
+    if sort_by_insertion:
+        # columns of A sorted by A's first inserted row <-> rows of B sorted by B's first inserted column
+        order = {"type": "opposing_insertion", "insertion_id": 1, "measure": "count_weighted", "direction": "descending"}
+        ta = {"columns_dimension": {"order": dict(order)}}
+        tb = {"rows_dimension": {"order": dict(order)}}
     A = Cube(w.response(), transforms=ta, population=P).partitions[0]
     B = Cube(w.transposed().response(), transforms=tb, population=P).partitions[0]
     if medians:
@@ -132,6 +137,7 @@ def specs(tier):
     add("cat x mr", "with_mr", dict(rows=("cat", "a", 2, {"missing_at": (1,)}), cols=("mr", "b", 2, {})))
     add("mr x mr", "with_mr", dict(rows=("mr", "a", 2, {}), cols=("mr", "b", 2, {})))
     if tier == "thorough":
+        add("cat x cat two subtotals per dimension, sorted by an opposing insertion (mirrored)", "cat_cat", dict(nr=2, nc=3, values=False, strict=True, sort_by_insertion=True), max_paths=600)
         add("cat3 x cat3 insertions", "cat_cat", dict(nr=3, nc=3))
         add("cat+sub x mr3", "with_mr", dict(rows=("cat", "a", 2, {"missing_at": (0,), "insertions": [S("r12", [1, 2])]}), cols=("mr", "b", 3, {})))
     return out
